@@ -22,7 +22,7 @@ RULE = ('cases: (literal kind, multiset of positions, module head) x option set.
 ASSUMPTIONS = ['positions and literal kinds are those of mc/gen/hoist.py; at most 3 positions (x2 occurrences for constants) per program']
 NPARTS = 64
 H = 'hoist_literals'
-EXTRA = ['rename_locals', 'rename_globals', 'remove_literal_statements']
+EXTRA = ['rename_locals', 'rename_globals', 'remove_literal_statements', 'constant_folding']
 
 
 def option_sets(tier):
@@ -30,7 +30,7 @@ def option_sets(tier):
 
 
 def bound(tier):
-    return {'positions_per_program': 2 if tier == 'quick' else 3, 'option_sets': 8}
+    return {'positions_per_program': 2 if tier == 'quick' else 3, 'option_sets': 16}
 
 
 def tasks(tier):
